@@ -349,12 +349,31 @@ def _hints_from_signature(obj: tp.Union[type, tp.Callable]) -> dict[str, type[tp
             continue
         if annotation.__class__ is str:
             ref = refs.forwardref(
-                annotation, is_argument=True, module=getattr(obj, "__module__", None)
+                annotation, is_argument=True, module=_annotation_module(obj, name, annotation)
             )
             hints[name] = ref
             continue
         hints[name] = annotation  # pragma: no cover
     return hints
+
+
+def _annotation_module(obj: tp.Any, name: str, annotation: str) -> str | None:
+    """The module in whose namespace a string annotation of a parameter was written."""
+    bases = getattr(obj, "__mro__", ())
+    # The generated constructor of a dataclass repeats the annotations of its fields.
+    #   An inherited field is declared by a base class, maybe of another module:
+    #   `typing.get_type_hints` evaluates it there.
+    if dataclasses.is_dataclass(obj):
+        for base in bases:
+            if vars(base).get("__annotations__", {}).get(name) == annotation:
+                return base.__module__
+    # Otherwise it belongs to the constructor we took the signature from.
+    for base in bases:
+        for attr in ("__new__", "__init__"):
+            func = vars(base).get(attr)
+            if inspect.isfunction(getattr(func, "__func__", func)):
+                return base.__module__
+    return getattr(obj, "__module__", None)
 
 
 cached_type_hints = compat.cache(get_type_hints)
